@@ -10,7 +10,7 @@ from .. import gen, rng
 LEVEL = 'exploration'
 RULE = ("(a) Histories: a Hypothesis RuleBasedStateMachine per run picks storage class (Batch, Interval, Sequence, UniformReservoir, "
         "GeometricReservoir), capacity 1..6, store_targets and (Geometric) p in {0, 1, default, grid, arbitrary float}; every "
-        "update carries a unique serial number in x and in y (the storage may be forked mid-stream - copy.deepcopy or a pickle round trip - after which the copy carries on and the original must stay exactly as it was; `storage.update` is looked up per call or ONCE and reused as a bound method; some arrivals come WITHOUT a target: update(x) / y=None; in a quarter of the configurations some arrivals carry the very same dict OBJECT as the arrival before - a repeated reading - and count as arrivals of their own, told apart by their targets), the library's random draws come from a Hypothesis-generated script "
+        "update carries a unique serial number in x and in y (a quarter of the storages are user SUBCLASSES overriding get_data() to hand out copies; the storage may be forked mid-stream - copy.deepcopy or a pickle round trip - after which the copy carries on and the original must stay exactly as it was; `storage.update` is looked up per call or ONCE and reused as a bound method; some arrivals come WITHOUT a target: update(x) / y=None; in a quarter of the configurations some arrivals carry the very same dict OBJECT as the arrival before - a repeated reading - and count as arrivals of their own, told apart by their targets), the library's random draws come from a Hypothesis-generated script "
         "(extremes 0.0 and 1-2^-53 included). After EVERY update: stored serials pairwise distinct and a subset of arrivals, "
         "len == min(n, capacity) (Batch: n), targets aligned with instances or absent, Batch == stream, Interval == last size, "
         "Sequence == last one. (b) Exhaustive: every outcome of the draws (choice-point enumeration; uniforms on a 3-cell grid) for "
@@ -31,18 +31,38 @@ def make(cfg):
         import numpy as np
         k = np.int64(k)        # a capacity that is an integer, but not a Python int
     pos = cfg.get('positional_ctor')      # arguments given positionally, in the documented order
+    view = _snapshot_view if cfg.get('copy_view') else (lambda cls: cls)
     if c == 'batch':
-        return BatchStorage(stt) if pos else BatchStorage(store_targets=stt)
+        return view(BatchStorage)(stt) if pos else view(BatchStorage)(store_targets=stt)
     if c == 'interval':
-        return IntervalStorage(k, stt) if pos else IntervalStorage(size=k, store_targets=stt)
+        return view(IntervalStorage)(k, stt) if pos else view(IntervalStorage)(size=k, store_targets=stt)
     if c == 'sequence':
-        return SequenceStorage(stt) if pos else SequenceStorage(store_targets=stt)
+        return view(SequenceStorage)(stt) if pos else view(SequenceStorage)(store_targets=stt)
     if c == 'uniform':
-        return UniformReservoirStorage(k, stt) if pos else UniformReservoirStorage(size=k, store_targets=stt)
+        return view(UniformReservoirStorage)(k, stt) if pos else view(UniformReservoirStorage)(size=k, store_targets=stt)
     if c == 'geometric':
         p = cfg.get('p')
-        return GeometricReservoirStorage(k, p, stt) if pos else GeometricReservoirStorage(size=k, store_targets=stt, constant_probability=p)
+        return view(GeometricReservoirStorage)(k, p, stt) if pos else view(GeometricReservoirStorage)(size=k, store_targets=stt, constant_probability=p)
     raise ValueError(c)
+
+
+_VIEWS = {}
+
+
+def _snapshot_view(cls):
+    """A user subclass that overrides ONE documented method: get_data() hands out copies of the lists (readers get a snapshot).
+    Whatever the base class does to its own content must not go through this hook."""
+    if cls not in _VIEWS:
+        class SnapshotView(cls):
+            def get_data(self):
+                xs, ys = super().get_data()
+                return list(xs), list(ys)
+        SnapshotView.__name__ = 'Snapshot' + cls.__name__
+        SnapshotView.__qualname__ = SnapshotView.__name__
+        SnapshotView.__module__ = __name__
+        globals()[SnapshotView.__name__] = SnapshotView        # importable by name: instances survive a pickle round trip
+        _VIEWS[cls] = SnapshotView
+    return _VIEWS[cls]
 
 
 def capacity(cfg):
@@ -233,6 +253,7 @@ def configs(draw):
     if 'none_targets' not in cfg and draw(st.integers(0, 3)) == 0:
         cfg['resend'] = draw(st.lists(st.integers(0, 1), min_size=1, max_size=4).filter(any))   # arrivals that carry the previous dict OBJECT again
     cfg['cached_update'] = draw(st.booleans())
+    cfg['copy_view'] = draw(st.integers(0, 3)) == 0      # a user subclass overriding get_data()
     if draw(st.integers(0, 2)) == 0:
         cfg['fork_at'] = draw(st.integers(1, 8))
         cfg['fork_kind'] = draw(st.sampled_from(['deepcopy', 'deepcopy', 'pickle']))
